@@ -77,6 +77,10 @@ def cases(tier, seed):
                 # a very wide plotfile: the field names alone are more than 8 KiB of the Header (650 species, mass fractions and
                 # reaction rates)
                 (scope.named_meshes(2)[0], ["temp", "density"] + ["Y(S%03d)" % i for i in range(650)] + ["I_R(S%03d)" % i for i in range(650)] + ["HeatRelease", "my_tracer"])]
+    # twelve levels (Level_10, Level_11): the finest level is a two-digit one
+    from .c02 import chain_mesh
+    for nd_ in (2, 3):
+        specials.append((chain_mesh(nd_, 12), ["temp", "density", "Y(H2)"]))
     for si, (mesh, fs) in enumerate(specials):
         nd = mesh["ndims"]
         d = dict(mesh)
@@ -85,7 +89,7 @@ def cases(tier, seed):
                   "layout": [scope.scattered_layout(len(b), 3) if len(b) > 4 else scope.layouts(len(b), 'idrev')[-1] for b in mesh["levels"]]})
         d2 = dict(scope.named_meshes(nd)[1])
         d2.update({"fields": FIELDSETS[2], "time": 2.0, "seed": seed + 1, "payload": "signed"})
-        out.append({"desc": d, "desc2": d2, "triples": False, "names": NAMES[si % len(NAMES)]})
+        out.append({"desc": d, "desc2": d2, "triples": False, "names": NAMES[si % len(NAMES)], "no_marinate": len(mesh["levels"]) > 8})
     # NaN in the per-box tables of level 0 only / of the finer levels only: whatever the table shows for NaN, it must not
     # depend on WHICH level holds it
     for nd in (2, 3):
@@ -418,7 +422,11 @@ def run_case(case, workdir):
                     rec.fail("menu_history_dependent", {"tool": "menu", "history": [[t1, list(m1)], [t2, list(m2)], [t3, list(m3)]]},
                              "third call prints something else than in a fresh process")
     reset()
-    # ---- marinate
+    # ---- marinate (not on the twelve-level plotfile: the ghost map of its finest level would take gigabytes)
+    if case.get("no_marinate"):
+        reset()
+        rec.sample({"desc": desc, "second_plotfile_fields": desc2["fields"]})
+        return rec.result()
     with Captured(["marinate", path]) as c:
         with vpool.controlled():
             st, val = call(marinate.main)
@@ -470,6 +478,24 @@ def run_case(case, workdir):
                     dst = os.path.join(path, os.path.relpath(src, tmp))
                     with open(src, "rb") as fi, open(dst, "wb") as fo:      # overwrite in place, no entry added or removed
                         fo.write(fi.read())
+            # (the pickle of the EARLIER contents still lies beside the plotfile: the header-only tools report what the plotfile
+            # holds now)
+            pp3 = ParsedPlot(path)
+            for mm_, fl_ in ((True, False), (True, True)):
+                reset()
+                st7, val7, text7 = run_menu(path, mm_, fl_)
+                rec.exe([dh, "menu_after_marinate_and_rewrite", mm_, fl_], trans=3)
+                sub7 = {"tool": "menu", "min_max": mm_, "finest_lv": fl_, "history": "marinated, then rewritten in place, then menu"}
+                if st7 == "exc":
+                    rec.fail("menu_raised", sub7, exc_text(val7))
+                else:
+                    check_minmax(rec, sub7, d3["fields"], text7, pp3, finest=fl_)
+            with Captured(["minuterie", path]) as c7:
+                st8, val8 = call(minuterie.main)
+            m8 = re.search(r"Plotfile time = (\S+)", c7.text)
+            if st8 == "exc" or not m8 or not same_value(float(m8.group(1)), -7.5):
+                rec.fail("minuterie_stale", {"history": "marinated, then rewritten in place, then minuterie"}, "printed %r, the header says -7.5" % c7.text.strip()[:80])
+            reset()
             with Captured(["marinate", path]) as c2:
                 with vpool.controlled():
                     st4, val4 = call(marinate.main)
